@@ -142,9 +142,8 @@ structure Adv (p : Params) (s s' : S) : Prop where
 
 theorem Adv.refl (p : Params) (s : S) : Adv p s s := ⟨Nat.le_refl _, Nat.le_refl _, Or.inl rfl, fun h => ⟨h, rfl⟩⟩
 
-theorem potential_forceFail (w : WfSt) (s : S) : potential (forceFail w s) ≤ potential s := by
-  simp only [potential, forceFail, contJobs]
-  split <;> simp
+theorem potential_forceFail (s : S) : potential (forceFail s) ≤ potential s := by
+  simp [potential, forceFail, contJobs]
 
 theorem completeTask_adv (p : Params) (s : S) (st : TSt) (m : Msg) : Adv p s (completeTask p s st m) := by
   simp only [completeTask]
@@ -156,7 +155,7 @@ theorem completeTask_adv (p : Params) (s : S) (st : TSt) (m : Msg) : Adv p s (co
       rw [hr] at h; simp only [R.state] at h
       refine ⟨?_, by simpa [forceFail] using h.mono, by simpa [forceFail] using h.bound,
               fun hh => ⟨by simpa [forceFail, h.pn] using hh, by simp [forceFail, h.wb]⟩⟩
-      have hp := potential_forceFail s.wf s2
+      have hp := potential_forceFail s2
       have : potential s2 + s.retryNo = potential s + s2.retryNo := by
         have := h.jobs; have := h.acts
         simp only [potential, h.pn, h.pe, h.wf, contJobs] at *
@@ -354,8 +353,10 @@ theorem Adv.of_eq {p : Params} {s s' : S} (hp : potential s' ≤ potential s) (h
 theorem continueTask_adv (p : Params) (s : S) :
     potential (continueTask p s) ≤ potential s + 1 ∧ (continueTask p s).retryNo = s.retryNo ∧
     (continueTask p s).pendingNew = s.pendingNew ∧ (continueTask p s).wbSkip = s.wbSkip := by
-  by_cases hx : p.execTimeoutRaises = true <;>
-    simp [continueTask, scheduleAction, hx, potential, contJobs, crash, resetActions] <;> omega
+  by_cases ho : hasOutstanding s.acts = true
+  · simp [continueTask, ho, potential, contJobs]
+  · by_cases hx : p.execTimeoutRaises = true <;>
+      simp [continueTask, ho, scheduleAction, hx, potential, contJobs, crash, resetActions] <;> omega
 
 theorem fire_adv (p : Params) (s : S) (idx : Nat) : Adv p s (fire p s idx) := by
   simp only [fire]
@@ -371,6 +372,8 @@ theorem fire_adv (p : Params) (s : S) (idx : Nat) : Adv p s (fire p s idx) := by
       cases hk : j.kind with
       | cont =>
         simp only []
+        split
+        case isFalse => exact h0
         have h1 := continueTask_adv p { s with jobs := s.jobs.eraseIdx idx }
         refine ⟨?_, Nat.le_of_eq h1.2.1.symm, Or.inl h1.2.1, fun h => ⟨by simpa [h1.2.2.1] using h, by simp [h1.2.2.2]⟩⟩
         have : isCont j = true := by simp [isCont, hk]
@@ -383,7 +386,9 @@ theorem fire_adv (p : Params) (s : S) (idx : Nat) : Adv p s (fire p s idx) := by
         omega
       | complete st m =>
         simp only []
-        exact h0.trans (completeTask_adv p _ st m)
+        split
+        · exact h0.trans (completeTask_adv p _ st m)
+        · exact h0
       | timeout =>
         simp only []
         split
@@ -405,13 +410,19 @@ theorem startExisting_fields (p : Params) (s : S) :
   by_cases hpe : s.pendingExisting = true
   · by_cases hs : s.st = .success
     · simp [startExisting, hpe, hs, potential, contJobs, b2n]
-    · by_cases hx : p.execTimeoutRaises = true
-      · simp [startExisting, hpe, hs, hx, scheduleAction, crash, potential, contJobs, b2n]
-      · by_cases hr : s.st = .running ∧ s.msg = .none
-        · simp [startExisting, hpe, hs, hx, hr, scheduleAction, setRunningExisting, potential, contJobs, b2n, resetActions]
-          omega
-        · simp [startExisting, hpe, hs, hx, hr, scheduleAction, setRunningExisting, potential, contJobs, b2n, resetActions]
-          omega
+    · by_cases hg : s.st = .running ∧ hasOutstanding s.acts = true
+      · simp [startExisting, hpe, hs, hg, potential, contJobs, b2n]
+      · by_cases hx : p.execTimeoutRaises = true
+        · simp [startExisting, hpe, hs, hg, hx, scheduleAction, crash, potential, contJobs, b2n]
+        · by_cases hr : s.st = .running ∧ s.msg = .none
+          · have ho : hasOutstanding s.acts = false := by
+              cases h : hasOutstanding s.acts with
+              | false => rfl
+              | true => exact absurd ⟨hr.1, h⟩ hg
+            simp [startExisting, hpe, hs, ho, hx, hr, scheduleAction, setRunningExisting, potential, contJobs, b2n, resetActions]
+            omega
+          · simp [startExisting, hpe, hs, hg, hx, hr, scheduleAction, setRunningExisting, potential, contJobs, b2n, resetActions]
+            omega
   · simp [startExisting, hpe]
 
 theorem startExisting_adv (p : Params) (s : S) : Adv p s (startExisting p s) := by
@@ -442,7 +453,7 @@ theorem launch_fields (p : Params) (s0 : S) (hsk : s0.wbSkip = false) (hpn : s0.
   | raise s2 =>
     rw [hrr] at hb hr
     simp only [R.state, willRun_raise] at hb hr
-    have hf := potential_forceFail s0.wf s2
+    have hf := potential_forceFail s2
     refine ⟨?_, by simp [forceFail, hr.rn], by simp [forceFail, hr.pn, hpn]⟩
     simp only [potential, pausedN, contJobs, hr.acts, hr.pn, hr.pe, b2n, hpn] at *
     simp at *
@@ -818,11 +829,17 @@ theorem step_jobs (p : Params) (s : S) (e : Ev) : ∀ j ∈ (step p s e).jobs, j
       by_cases hpe : s.pendingExisting = true
       · by_cases hs : s.st = .success
         · simp [startExisting, hpe, hs]
-        · by_cases hx : p.execTimeoutRaises = true
-          · simp [startExisting, hpe, hs, hx, scheduleAction, crash]
-          · by_cases hr : s.st = .running ∧ s.msg = .none
-            · simp [startExisting, hpe, hs, hx, hr, scheduleAction, setRunningExisting]
-            · simp [startExisting, hpe, hs, hx, hr, scheduleAction, setRunningExisting]
+        · by_cases hg : s.st = .running ∧ hasOutstanding s.acts = true
+          · simp [startExisting, hpe, hs, hg]
+          · by_cases hx : p.execTimeoutRaises = true
+            · simp [startExisting, hpe, hs, hg, hx, scheduleAction, crash]
+            · by_cases hr : s.st = .running ∧ s.msg = .none
+              · have ho : hasOutstanding s.acts = false := by
+                  cases h : hasOutstanding s.acts with
+                  | false => rfl
+                  | true => exact absurd ⟨hr.1, h⟩ hg
+                simp [startExisting, hpe, hs, ho, hx, hr, scheduleAction, setRunningExisting]
+              · simp [startExisting, hpe, hs, hg, hx, hr, scheduleAction, setRunningExisting]
       · simp [startExisting, hpe]
     rw [this]; exact fun j h => Or.inl h
   | result i o c b =>
@@ -841,14 +858,20 @@ theorem step_jobs (p : Params) (s : S) (e : Ev) : ∀ j ∈ (step p s e).jobs, j
       · have hsub : ∀ j ∈ ({ s with jobs := s.jobs.eraseIdx idx } : S).jobs, j ∈ s.jobs :=
           fun j h => mem_of_mem_eraseIdx' h
         split
-        · intro j hj
-          have : (continueTask p { s with jobs := s.jobs.eraseIdx idx }).jobs = s.jobs.eraseIdx idx := by
-            by_cases hx : p.execTimeoutRaises = true <;> simp [continueTask, scheduleAction, crash, hx]
-          rw [this] at hj; exact Or.inl (mem_of_mem_eraseIdx' hj)
-        · intro j hj
-          cases (completeTask_jobs p { s with jobs := s.jobs.eraseIdx idx } _ _).mem j hj with
-          | inl h => exact Or.inl (hsub j h)
-          | inr h => exact Or.inr h
+        · split
+          · intro j hj
+            have : (continueTask p { s with jobs := s.jobs.eraseIdx idx }).jobs = s.jobs.eraseIdx idx := by
+              by_cases ho : hasOutstanding s.acts = true
+              · simp [continueTask, ho]
+              · by_cases hx : p.execTimeoutRaises = true <;> simp [continueTask, ho, scheduleAction, crash, hx]
+            rw [this] at hj; exact Or.inl (mem_of_mem_eraseIdx' hj)
+          · exact fun j h => Or.inl (hsub j h)
+        · split
+          · intro j hj
+            cases (completeTask_jobs p { s with jobs := s.jobs.eraseIdx idx } _ _).mem j hj with
+            | inl h => exact Or.inl (hsub j h)
+            | inr h => exact Or.inr h
+          · exact fun j h => Or.inl (hsub j h)
         · split
           · exact fun j h => Or.inl (hsub j h)
           · intro j hj
@@ -1077,9 +1100,15 @@ theorem step_crashes (p : Params) (s : S) (e : Ev) (hx : p.execTimeoutRaises = f
     by_cases hpe : s.pendingExisting = true
     · by_cases hs : s.st = .success
       · simp [startExisting, hpe, hs]
-      · by_cases hr : s.st = .running ∧ s.msg = .none
-        · simp [startExisting, hpe, hs, hx, hr, scheduleAction, setRunningExisting]
-        · simp [startExisting, hpe, hs, hx, hr, scheduleAction, setRunningExisting]
+      · by_cases hg : s.st = .running ∧ hasOutstanding s.acts = true
+        · simp [startExisting, hpe, hs, hg]
+        · by_cases hr : s.st = .running ∧ s.msg = .none
+          · have ho : hasOutstanding s.acts = false := by
+              cases h : hasOutstanding s.acts with
+              | false => rfl
+              | true => exact absurd ⟨hr.1, h⟩ hg
+            simp [startExisting, hpe, hs, ho, hx, hr, scheduleAction, setRunningExisting]
+          · simp [startExisting, hpe, hs, hg, hx, hr, scheduleAction, setRunningExisting]
     · simp [startExisting, hpe]
   | result i o c b =>
     simp only [step, result]
@@ -1095,8 +1124,12 @@ theorem step_crashes (p : Params) (s : S) (e : Ev) (hx : p.execTimeoutRaises = f
     · split
       · rfl
       · split
-        · simp [continueTask, scheduleAction, hx]
-        · rw [completeTask_crashes]
+        · split
+          · by_cases ho : hasOutstanding s.acts = true <;> simp [continueTask, ho, scheduleAction, hx]
+          · rfl
+        · split
+          · rw [completeTask_crashes]
+          · rfl
         · split
           · rfl
           · rw [completeTask_crashes]
@@ -1109,6 +1142,184 @@ theorem run_crashes (p : Params) (hx : p.execTimeoutRaises = false) (evs : List 
   induction evs generalizing s with
   | nil => rfl
   | cons e es ih => simp only [run, List.foldl] at ih ⊢; rw [ih, step_crashes p s e hx]
+
+
+
+/-- SUCCESS is final (as of 831643dc: stale continue / complete jobs are dropped): no event changes the
+    state of a SUCCESS task or adds an action execution to it. -/
+theorem success_final_step (p : Params) (s : S) (e : Ev) (h : s.st = .success) :
+    (step p s e).st = .success ∧ (step p s e).acts.length = s.acts.length := by
+  have hc : isCompleted s.st = true := by rw [h]; rfl
+  cases e with
+  | startNew =>
+    by_cases hp : s.pendingNew = true
+    · simp [step, startNew, hp, h]
+    · simp [step, startNew, hp, h]
+  | startExisting =>
+    by_cases hp : s.pendingExisting = true
+    · simp [step, startExisting, hp, h]
+    · simp [step, startExisting, hp, h]
+  | result i o c b =>
+    simp only [step, result]
+    split
+    · exact ⟨h, rfl⟩
+    · split
+      · exact ⟨h, rfl⟩
+      · simp [completeTask, h, isCompleted]
+  | fire idx =>
+    simp only [step, fire]
+    split
+    · exact ⟨h, rfl⟩
+    · split
+      · exact ⟨h, rfl⟩
+      · split <;> simp [h, isCompleted]
+  | tick dt => exact ⟨h, rfl⟩
+  | resume => simp only [step, resume]; (repeat' split) <;> exact ⟨h, rfl⟩
+  | wfDone => simp only [step]; split <;> exact ⟨h, rfl⟩
+
+theorem success_final_run (p : Params) (s : S) (evs : List Ev) (h : s.st = .success) :
+    (run p s evs).st = .success ∧ (run p s evs).acts.length = s.acts.length := by
+  induction evs generalizing s with
+  | nil => exact ⟨h, rfl⟩
+  | cons e es ih =>
+    have h1 := success_final_step p s e h
+    have h2 := ih (step p s e) h1.1
+    simp only [run, List.foldl] at h2 ⊢
+    exact ⟨h2.1, by rw [h2.2, h1.2]⟩
+
+/-- ERROR is final unless a start request of the task is still in flight. -/
+theorem error_final_step (p : Params) (s : S) (e : Ev) (h : s.st = .error) (hpe : s.pendingExisting = false) :
+    (step p s e).st = .error ∧ (step p s e).acts.length = s.acts.length ∧ (step p s e).pendingExisting = false := by
+  have hc : isCompleted s.st = true := by rw [h]; rfl
+  cases e with
+  | startNew =>
+    by_cases hp : s.pendingNew = true
+    · simp [step, startNew, hp, h, hpe]
+    · simp [step, startNew, hp, h, hpe]
+  | startExisting => simp [step, startExisting, hpe, h]
+  | result i o c b =>
+    simp only [step, result]
+    split
+    · exact ⟨h, rfl, hpe⟩
+    · split
+      · exact ⟨h, rfl, hpe⟩
+      · simp [completeTask, h, isCompleted, hpe]
+  | fire idx =>
+    simp only [step, fire]
+    split
+    · exact ⟨h, rfl, hpe⟩
+    · split
+      · exact ⟨h, rfl, hpe⟩
+      · split <;> simp [h, isCompleted, hpe]
+  | tick dt => exact ⟨h, rfl, hpe⟩
+  | resume =>
+    simp only [step, resume]
+    split
+    · exact ⟨h, rfl, hpe⟩
+    · simp [h, isCompleted, hpe]; split <;> simp [h, hpe]
+  | wfDone => simp only [step]; split <;> exact ⟨h, rfl, hpe⟩
+
+
+
+theorem afterAll_illTyped (p : Params) (hw : p.wellTyped = false) (x : S) : ∃ y, afterAll p x = .raise y := by
+  cases hr : afterAll p x with
+  | raise y => exact ⟨y, rfl⟩
+  | ok y => have := afterAll_ok_wellTyped p x y hr; rw [hw] at this; cases this
+
+/-- with an ill-typed parameter the task never gets an action execution: invariant of every run -/
+structure IllInv (s : S) : Prop where
+  cr : s.crashes = 0
+  acts : s.acts = []
+  pe : s.pendingExisting = false
+  st : s.st = .idle ∨ s.st = .error
+  idle : s.st = .idle → s.pendingNew = true ∧ s.wf ≠ .paused
+
+theorem illInv_init : IllInv init := ⟨rfl, rfl, rfl, Or.inl rfl, fun _ => ⟨rfl, by simp [init]⟩⟩
+
+theorem illInv_step (p : Params) (hw : p.wellTyped = false) (s : S) (e : Ev) (h : IllInv s) : IllInv (step p s e) := by
+  cases e with
+  | startNew =>
+    by_cases hp : s.pendingNew = true
+    · by_cases hi : s.st = .idle
+      · have e0 : step p s .startNew = launch p { s with pendingNew := false } := by simp [step, startNew, hp, hi]
+        obtain ⟨y, hy⟩ := beforeAll_illTyped p hw { s with pendingNew := false, st := .running }
+        have hr := beforeAll_rel p { s with pendingNew := false, st := .running }
+        have hcr := runHooks_crashes (beforeOne p) (beforeOne_crashes p) Gen.PolicyOrder.order { s with pendingNew := false, st := .running }
+        change (beforeAll p _).state.crashes = _ at hcr
+        rw [hy] at hr hcr
+        simp only [R.state] at hr hcr
+        have el : launch p { s with pendingNew := false } = forceFail y := by simp only [launch, hy]
+        rw [e0, el]
+        exact ⟨by simp [forceFail, hcr, h.cr], by simp [forceFail, hr.acts, h.acts], by simp [forceFail, hr.pe, h.pe],
+               Or.inr rfl, fun hh => by simp [forceFail] at hh⟩
+      · have e0 : step p s .startNew = { s with pendingNew := false } := by simp [step, startNew, hp, hi]
+        rw [e0]
+        exact ⟨h.cr, h.acts, h.pe, h.st, fun hh => absurd hh hi⟩
+    · have e0 : step p s .startNew = s := by simp [step, startNew, hp]
+      rw [e0]; exact h
+  | startExisting =>
+    have e0 : step p s .startExisting = s := by simp [step, startExisting, h.pe]
+    rw [e0]; exact h
+  | result i o c b =>
+    have e0 : step p s (.result i o c b) = s := by simp [step, result, h.acts]
+    rw [e0]; exact h
+  | fire idx =>
+    simp only [step, fire]
+    split
+    · exact h
+    · split
+      · exact h
+      · have hnd : s.st ≠ .delayed := by cases h.st with
+          | inl hh => rw [hh]; simp
+          | inr hh => rw [hh]; simp
+        have h0 : IllInv { s with jobs := s.jobs.eraseIdx idx } := ⟨h.cr, h.acts, h.pe, h.st, h.idle⟩
+        split
+        · simp only [hnd, if_false]; exact h0
+        · simp only [hnd, if_false]; exact h0
+        · split
+          · exact h0
+          · rename_i hnc
+            -- the timer on the not yet started task: Task.complete raises in a hook → force-failed
+            obtain ⟨y, hy⟩ := afterAll_illTyped p hw { s with jobs := s.jobs.eraseIdx idx, st := .error, msg := .timeout }
+            have hr := afterAll_rel p { s with jobs := s.jobs.eraseIdx idx, st := .error, msg := .timeout }
+            have hcr := runHooks_crashes (afterOne p) (afterOne_crashes p) Gen.PolicyOrder.order
+              { s with jobs := s.jobs.eraseIdx idx, st := .error, msg := .timeout }
+            change (afterAll p _).state.crashes = _ at hcr
+            rw [hy] at hr hcr
+            simp only [R.state] at hr hcr
+            have hnc' : isCompleted s.st = false := by simpa using hnc
+            have el : completeTask p { s with jobs := s.jobs.eraseIdx idx } .error .timeout = forceFail y := by
+              simp only [completeTask, hnc', hy]; simp
+            rw [el]
+            have hacts : y.acts = [] := by
+              have := hr.acts; simp only [h.acts, List.length_nil] at this
+              exact List.eq_nil_of_length_eq_zero this
+            exact ⟨by simp [forceFail, hcr, h.cr], by simp [forceFail, hacts], by simp [forceFail, hr.pe, h.pe],
+                   Or.inr rfl, fun hh => by simp [forceFail] at hh⟩
+  | tick dt => exact ⟨h.cr, h.acts, h.pe, h.st, h.idle⟩
+  | resume =>
+    show IllInv (resume p s)
+    by_cases hwf : s.wf = .paused
+    · cases h.st with
+      | inl hi => exact absurd hwf (h.idle hi).2
+      | inr he =>
+        have hf : (resume p s).crashes = s.crashes ∧ (resume p s).acts = s.acts ∧
+            (resume p s).pendingExisting = s.pendingExisting ∧ (resume p s).st = s.st := by
+          by_cases hpr : s.processed = true <;> simp [resume, hwf, he, isCompleted, hpr]
+        exact ⟨by rw [hf.1]; exact h.cr, by rw [hf.2.1]; exact h.acts, by rw [hf.2.2.1]; exact h.pe,
+               Or.inr (by rw [hf.2.2.2]; exact he), fun hh => by rw [hf.2.2.2, he] at hh; cases hh⟩
+    · have e0 : resume p s = s := by simp [resume, hwf]
+      rw [e0]; exact h
+  | wfDone =>
+    simp only [step]
+    split
+    · exact ⟨h.cr, h.acts, h.pe, h.st, fun hh => ⟨(h.idle hh).1, by simp⟩⟩
+    · exact h
+
+theorem illInv_run (p : Params) (hw : p.wellTyped = false) (evs : List Ev) (s : S) (h : IllInv s) : IllInv (run p s evs) := by
+  induction evs generalizing s with
+  | nil => exact h
+  | cons e es ih => exact ih _ (illInv_step p hw s e h)
 
 
 end Mistral.Policy
